@@ -37,6 +37,12 @@ def differential(chk: core.Check, driver: str, cases: list, to_coq, imports: str
     if expand is not None:
         cases, outs = expand(cases, outs)
         chk.expanded = (cases, outs)
+    # cases the driver did not run (it gives up on a batch after five calls that did not return) decide nothing: dropped and counted
+    all_cases, all_outs = cases, outs
+    keep = [i for i, o in enumerate(outs) if '"exc": "NotRun"' not in json.dumps(o, default=str)]
+    if len(keep) != len(outs):
+        chk.not_run = getattr(chk, "not_run", 0) + len(outs) - len(keep)
+        cases, outs = [all_cases[i] for i in keep], [all_outs[i] for i in keep]
     terms = [to_coq(c, o) for c, o in zip(cases, outs)]
     known = {k["id"]: k for k in core.known_findings(chk.prop)}
     if coq_regions:
@@ -104,7 +110,9 @@ def differential(chk: core.Check, driver: str, cases: list, to_coq, imports: str
                  "case": cases[i], "observed": outs[i], "coq_term": terms[i][:4000], "mismatches": len(corr_only)},
                 False,
             )
-    return outs, corr, orac
+    if len(keep) != len(all_outs):
+        corr, orac = [keep[i] for i in corr], [keep[i] for i in orac]      # indices of the caller's lists
+    return all_outs, corr, orac
 
 
 def rng(seed: int, salt: str) -> random.Random:
